@@ -288,6 +288,10 @@ class EngineBase:
         return st, x
 
     def write_local(self, st: State, name, val: V) -> State:
+        track = st.ghost.get("$oneshot")
+        if track and name in track and track[name] != "rebound" and len(st.frames) == getattr(self, "_oneshot_depth", -1):
+            st = st.fork()
+            st.ghost["$oneshot"] = {**track, name: "rebound"}     # the name now denotes what was assigned, e.g. tuple(other)
         x = st.frame.locals.get(name)
         if isinstance(x, FieldAlias) and isinstance(val.t, (TSet, TMap, TSeq)):
             raise EngineError("rebinding of an aliasing local")
@@ -334,6 +338,103 @@ class EngineBase:
         s2 = st.assume(z3.And(*facts)) if facts else st.fork()
         s2.ghost["$cards"] = tuple(seen) + ((key, setv.zs[0], c),)
         return s2, c
+
+    # ------------------------------------------------------------------ one-shot iterables (A-ITER-1)
+    _SINGLE_TRAVERSAL = {"set", "tuple", "list", "frozenset", "sorted", "dict.fromkeys", "enumerate", "iter"}
+
+    def oneshot_scan(self, fdef, names):
+        """Classify every Load of a one-shot parameter in the function: 'exempt' (isinstance / is None: the object is looked at,
+        not traversed), 'ok' (the value goes into exactly one traversal: for / first comprehension source / set() / tuple() /
+        list() / frozenset() / sorted() / dict.fromkeys(), possibly through `x or y` / typing.cast) or a reason why not."""
+        import ast
+        parent = {}
+        for n in ast.walk(fdef):
+            for c in ast.iter_child_nodes(n):
+                parent[id(c)] = n
+        iter_ctx = set()
+
+        def mark(n):
+            for x in ast.walk(n):
+                iter_ctx.add(id(x))
+        for n in ast.walk(fdef):
+            if isinstance(n, (ast.For, ast.AsyncFor)):
+                for b in n.body:
+                    mark(b)
+            elif isinstance(n, ast.While):
+                mark(n.test)
+                for b in n.body:
+                    mark(b)
+            elif isinstance(n, (ast.ListComp, ast.SetComp, ast.GeneratorExp, ast.DictComp)):
+                for part in ([n.key, n.value] if isinstance(n, ast.DictComp) else [n.elt]):
+                    mark(part)
+                for gi, g in enumerate(n.generators):
+                    for c_ in g.ifs:
+                        mark(c_)
+                    if gi > 0:
+                        mark(g.iter)
+            elif isinstance(n, (ast.Lambda, ast.FunctionDef)) and n is not fdef:
+                mark(n)
+
+        def fname(f):
+            if isinstance(f, ast.Name):
+                return f.id
+            if isinstance(f, ast.Attribute) and isinstance(f.value, ast.Name):
+                return f"{f.value.id}.{f.attr}"
+            return None
+
+        def context(n):
+            p = parent.get(id(n))
+            if isinstance(p, ast.Call) and n in p.args:
+                fn = fname(p.func)
+                if fn == "isinstance" and p.args[0] is n:
+                    return "exempt"
+                if fn in self._SINGLE_TRAVERSAL and len(p.args) == 1 and not p.keywords:
+                    return "ok"
+                if fn in ("cast", "typing.cast") and len(p.args) == 2 and p.args[1] is n:
+                    return context(p)
+                return f"passed to {fn or 'a call'}(...), which is not known to traverse it exactly once"
+            if isinstance(p, (ast.For, ast.AsyncFor)) and p.iter is n:
+                return "ok"
+            if isinstance(p, ast.comprehension) and p.iter is n:
+                return "ok"
+            if isinstance(p, ast.BoolOp):
+                return context(p)
+            if isinstance(p, ast.Compare) and p.left is n and len(p.ops) == 1 and isinstance(p.ops[0], (ast.Is, ast.IsNot)):
+                return "exempt"
+            if isinstance(p, ast.UnaryOp) and isinstance(p.op, ast.Not):
+                return "its truth value is taken (always true for an iterator, false for an empty container)"
+            return f"used in {type(p).__name__}, which is not a single traversal"
+        out = {}
+        for n in ast.walk(fdef):
+            if isinstance(n, ast.Name) and isinstance(n.ctx, ast.Load) and n.id in names:
+                c = context(n)
+                if c == "ok" and id(n) in iter_ctx:
+                    c = "evaluated inside a loop body or a comprehension's element / filter (once per iteration)"
+                out[(n.lineno, n.col_offset)] = c
+        return out
+
+    def oneshot_use(self, st: State, e):
+        """A Load of a parameter declared one-shot in the function under verification: at most one traversing use per path."""
+        track = st.ghost.get("$oneshot")
+        if not track or self.spec or self.dry or e.id not in track or len(st.frames) != self._oneshot_depth:
+            return st
+        cnt = track[e.id]
+        if cnt == "rebound":
+            return st
+        verdict = self._oneshot_sites.get((e.lineno, e.col_offset), "not a use the scan knows")
+        if verdict == "exempt":
+            return st
+        bad = verdict if verdict != "ok" else ("traversed a second time on this path" if cnt >= 1 else None)
+        # the typestate obligation of this use on this path (trivially true or false once the path is fixed; a false one is
+        # discharged only if the path is infeasible)
+        self.oblige(st, "oneshot", f":{e.id}@{e.lineno}.{e.col_offset}", z3.BoolVal(not bad),
+                    descr=f"one-shot iterable {e.id!r}: " + (f"{bad} (line {e.lineno})" if bad else
+                                                             f"first and only traversal on this path (line {e.lineno})"), node=e)
+        st = st.fork()
+        t2 = dict(track)
+        t2[e.id] = cnt + 1
+        st.ghost["$oneshot"] = t2
+        return st
 
     def okeys(self, st: State, m: V):
         """The iteration view of an ordered map (A-ODICT): the keys as a sequence in increasing rank.  OKLEN / OKAT / OKPOS
